@@ -62,12 +62,24 @@ func vManyKeys(files map[backend.Handle][]byte, r *rand.Rand, total int, tag str
 		if !own {
 			continue
 		}
-		// hints: none, the key itself, two other keys, a hint that names nothing
-		hints := []string{"", k, keys[r.Intn(n)], keys[r.Intn(n)], "0000dead"}
+		// hints: none, the key itself, two other keys, a hint that names nothing, short prefixes of the own id
+		// (1 and 2 hex digits: with ~20 keys usually ambiguous, i.e. naming no single key) and a unique prefix
+		hints := []string{"", k, keys[r.Intn(n)], keys[r.Intn(n)], "0000dead", k[:1], k[:2], k[:12]}
+		names := []string{"none", "self", "other", "other", "nothing", "prefix1", "prefix2", "prefix12"}
 		for hi, h := range hints {
 			opened, m := try(pw, h)
-			recs.Write(map[string]any{"tag": tag, "nkeys": n, "kind": "own", "hint": []string{"none", "self", "other", "other", "nothing"}[hi],
-				"hint_matches": h == k, "opened": opened, "same_master": !opened || m == master})
+			// a prefix hint names this key when no other key file shares it
+			matches := h == k
+			if hi >= 5 {
+				matches = true
+				for _, o := range keys {
+					if o != k && len(o) >= len(h) && o[:len(h)] == h {
+						matches = false
+					}
+				}
+			}
+			recs.Write(map[string]any{"tag": tag, "nkeys": n, "kind": "own", "hint": names[hi],
+				"hint_matches": matches, "opened": opened, "same_master": !opened || m == master})
 			res.Case(fmt.Sprintf("many/%s/%d/%s/%d", tag, n, k[:6], hi), true)
 		}
 	}
